@@ -176,7 +176,7 @@ def case_strategy(max_depth=6):
                 settle += model.run(op[2], op[3])["elapsed"]
         prog = {"setup": [["build", "ex", stack]], "threads": threads, "settle": settle,
                 "final": [["state", n] for n in names]}
-        return {"prog": prog, "tape": draw(gen.tapes(8)), "clock": "exact"}
+        return {"prog": prog, "tape": draw(gen.tapes(8)), "clock": "exact", "max_steps": 600000}
 
     return cases()
 
